@@ -64,6 +64,11 @@ CHECKS.update({
    text="Readers are driven synchronously so the order of data and EOF is observed exactly: every message written before Close is read before EOF, EOF is the terminal error, unrelated streams are unaffected, and after both applications closed and both readers saw EOF the identifier is reopened for up to 4 cycles with exact delivery each time.",
    note="'Both directions reset' is defined at the API: both applications called Close, both readers saw EOF, both Stream objects report closed.", ref="6/C14"),
 })
+CHECKS.update({
+ "C09": dict(level="fault_enumeration", technique="crash-point enumeration: for rapid-generated base scenarios (handshake, lossy transfer, stream reset, shutdown, blocked writer) every wire event x {Close, Close twice, Abort, transport closed, read error, write error} x side is injected in the two-endpoint simulation",
+   text="For each base scenario the teardown is injected right after every single wire event on either side; every blocked connect/read/write/accept/shutdown call must return within 1 virtual second, the side must be closed and silent ten virtual minutes later, a delivered ABORT must fail the peer's blocked reads with an error wrapping ErrChunk that contains the reason, repeated Close must return, and after both sides are closed no goroutine of the library may remain (synctest reports leftovers).",
+   note="exhaustive per generated base scenario (48 quick / 400 thorough bases); one schedule per injection point. A write error counts from the first failed Write call. Process death (panic) is captured by the driver with the scenario written beforehand.", ref="6/C09"),
+})
 NOT_YET = {}
 props = [json.loads(l) for l in open(os.path.join(V, "properties.jsonl"))]
 checks = []
